@@ -11,6 +11,7 @@ import AgpTpf.Model.Text
 import AgpTpf.Model.Fasta
 import AgpTpf.Model.Remap
 import AgpTpf.Model.Cache
+import AgpTpf.Model.Cli
 import AgpTpf.Model.Outputs
 open Lean AgpTpf
 
@@ -264,6 +265,21 @@ def hNamer (j : Json) : D Json := do
       ("lc", jarr (fun (p : Str × Str) => Json.arr #[jstr p.1, jstr p.2]) n.haplotypeLc)]) (makeScaffoldName n0 name rows tags)))
   pure (Json.mkObj [("fragment_tags", jarr jstr ({ name := name, rows := rows } : Scaffold).fragmentTags), ("results", Json.arr out.toArray)])
 
+def hNameAssemblies (j : Json) : D Json := do
+  let asms ← (← getA j "assemblies").mapM (fun a => do
+    let scs ← (← getA a "scaffolds").mapM (fun v => do let s ← v.getStr?; pure ({ name := s.toList } : Scaffold))
+    pure ({ key := ← getOptS a "key", curated := ← getB a "curated", scaffolds := scs } : OutAsm))
+  let root ← getS j "root"
+  let version ← getS j "version"
+  let suffix ← getS j "suffix"
+  pure (encR (jarr (fun (a : NamedAsm) => Json.mkObj [("key", jopt jstr a.key), ("name", jstr a.name), ("curated", Json.bool a.curated),
+    ("scaffolds", jarr (fun (s : Scaffold) => jstr s.name) a.scaffolds), ("file", jstr (outputFileName a suffix))])) (nameAssemblies asms root version))
+
+def hFai (j : Json) : D Json := do
+  let lines ← getSL j "lines"
+  let rows := (decIdx j).toOption.getD []
+  pure (Json.mkObj [("load", encR (jarr encInfo) (loadIndex lines)), ("rows", jarr (fun e => jstr (faiRow e)) rows)])
+
 def encFileV (f : Cache.FileV) : Json := Json.arr #[jnat f.src, jnat f.written, jnat f.total, jnat f.mtime]
 
 def encPC : Cache.PC → Json
@@ -336,6 +352,8 @@ def dispatch (j : Json) : D Json := do
   | "pyint" => hPyInt j
   | "misc" => hMisc j
   | "namer" => hNamer j
+  | "name_assemblies" => hNameAssemblies j
+  | "fai" => hFai j
   | "cache" => hCache j
   | "outputs" => hOutputs j
   | k => throw s!"unknown kind {k}"
